@@ -43,7 +43,10 @@ type errRec struct {
 	File     string   `json:"file"`
 	SrcNames []string `json:"srcNames"`
 	JSON     errJSON  `json:"json"`
-	msg      string
+	// LocsInFile: for every location, whether that line and column exist in the text of the file the error names
+	// (empty when the texts of the sources are not at hand)
+	LocsInFile []bool `json:"locsInFile"`
+	msg        string
 	desc     string
 }
 
@@ -54,8 +57,35 @@ func template(msg string) string {
 	return reDigits.ReplaceAllString(reQuoted.ReplaceAllString(msg, `"X"`), "N")
 }
 
+// curErrTexts: name -> text of the sources of the call whose errors are being recorded (nil: not at hand)
+var curErrTexts map[string]string
+
+func locInText(text string, line, col int) bool {
+	n := 1
+	start := 0
+	rs := []rune(strings.ReplaceAll(strings.ReplaceAll(text, "\r\n", "\n"), "\r", "\n"))
+	for i, r := range rs {
+		if n == line {
+			start = i
+			break
+		}
+		if r == '\n' {
+			n++
+			start = i + 1
+		}
+	}
+	if n != line {
+		return false
+	}
+	end := start
+	for end < len(rs) && rs[end] != '\n' {
+		end++
+	}
+	return col >= 1 && col <= end-start+1
+}
+
 func projectErrRec(origin string, err error, rules []string, srcNames []string) (errRec, string) {
-	r := errRec{Origin: origin, Rules: rules, SrcNames: srcNames, Locs: [][]int{}}
+	r := errRec{Origin: origin, Rules: rules, SrcNames: srcNames, Locs: [][]int{}, LocsInFile: []bool{}}
 	if r.Rules == nil {
 		r.Rules = []string{}
 	}
@@ -71,6 +101,11 @@ func projectErrRec(origin string, err error, rules []string, srcNames []string) 
 	}
 	if f, ok := ge.Extensions["file"].(string); ok {
 		r.File = f
+	}
+	if text, ok := curErrTexts[r.File]; ok {
+		for _, l := range ge.Locations {
+			r.LocsInFile = append(r.LocsInFile, locInText(text, l.Line, l.Column))
+		}
 	}
 	b, merr := json.Marshal(ge)
 	if merr != nil {
@@ -334,12 +369,40 @@ func checkC20(c *core.Ctx) {
 				s.Name = fmt.Sprintf("load%d_%d.graphql", i, k)
 				names = append(names, s.Name)
 			}
+			curErrTexts = map[string]string{}
+			for _, s := range v.Sources {
+				curErrTexts[s.Name] = s.Input
+			}
 			_, err := gqlparser.LoadSchema(v.Sources...)
 			add("load", err, nil, append(names, "prelude.graphql"), what)
+			curErrTexts = nil
 		}
 		loadNamed(gs.doc.Items(), nil, "valid generated schema")
 		if f := tg.InjectFault(gs); f != nil {
 			loadNamed(gs.doc.Items(), f.Involved, "faulty schema: "+f.What)
+		}
+	}
+	// rule violations whose two halves stand in different files, one file per item, laid out differently: every
+	// location of the error exists in the file the error names
+	for fi, its := range crossFileFaults {
+		for _, rev := range []bool{false, true} {
+			var srcs []*ast.Source
+			var names []string
+			curErrTexts = map[string]string{}
+			for k := range its {
+				j := k
+				if rev {
+					j = len(its) - 1 - k
+				}
+				pad := strings.Repeat("\n", 2*j) + strings.Repeat(" ", 3*j+1)
+				s := &ast.Source{Name: fmt.Sprintf("cross%d_%d.graphql", fi, j), Input: "# file\n" + pad + strings.ReplaceAll(its[j], " { ", " {\n"+pad+"  ")}
+				srcs = append(srcs, s)
+				names = append(names, s.Name)
+				curErrTexts[s.Name] = s.Input
+			}
+			_, err := gqlparser.LoadSchema(srcs...)
+			add("load", err, nil, append(names, "prelude.graphql"), fmt.Sprintf("items in one file each: %q", its))
+			curErrTexts = nil
 		}
 	}
 	// hand-written type systems (most of them ill-formed), each in a named file of its own
